@@ -2,7 +2,7 @@
 
 
 class H:
-    def __init__(self, name, tier="quick", timeout_q=480, timeout_t=2400, functions=(), bounds="", expect_fail=False, fs=None):
+    def __init__(self, name, tier="quick", timeout_q=480, timeout_t=2400, functions=(), bounds="", expect_fail=False, fs=None, extra=()):
         self.name = name
         self.tier = tier
         self.timeout_q = timeout_q
@@ -11,11 +11,13 @@ class H:
         self.bounds = bounds
         self.expect_fail = expect_fail
         self.fs = fs  # per-harness --max-field-sensitivity-array-size (None = kpipe default)
+        self.extra = list(extra)  # extra CBMC flags for this harness
 
 
 COMMON_ASSUMPTIONS = [
     "engine: Kani 0.68 / CBMC 6.11 / CaDiCaL over a shadow copy of the crate regenerated from /repo on every run by /verif/shadowgen "
-    "(T-vis: items made pub; T-err: non-scalar payloads of error::Details boxed; T-io: std::io paths -> crate::vio); "
+    "(T-vis: items made pub; T-err: non-scalar payloads of error::Details boxed, and under cfg(kani) the payloads of Details / CompatibilityError variants that no code destructures are erased "
+    "and constructor arguments of the form <place>.clone()/.to_owned()/.to_string()/.to_vec() for such variants are not evaluated; T-io: std::io paths -> crate::vio; T-map: std::collections -> crate::vmap); "
     "the rewrite is validated by running the repository's own test-suite against the natively built shadow (./check validate-shadow)",
     "std::io is modelled under cfg(kani) by shadowgen/inject/vio.rs (Error = its ErrorKind; read_exact/write_all follow the documented std algorithm)",
     "std::hash::RandomState::new is stubbed to fixed keys (hash-map iteration order is therefore one fixed order)",
@@ -43,11 +45,11 @@ DEC = [
     H("dec2::union_oob", tier="thorough", functions=DEC_FUNCS, bounds="union[null,long,boolean], branch index 3 (out of range) x all 2-byte tails x cut"),
     H("dec2::record_", functions=DEC_FUNCS, bounds="record{a:long,b:boolean} x all byte strings of length <= 3"),
     H("dec2::duration_", functions=DEC_FUNCS, bounds="all byte strings of length <= 13"),
-    H("dec2::array_two_blocks_of_three", functions=DEC_FUNCS + ["decode::decode_seq_len", "util::safe_collection_len"], fs=164,
+    H("dec2::array_two_blocks_of_three", functions=DEC_FUNCS + ["decode::decode_seq_len", "util::safe_collection_len"], fs=164, extra=["--no-pointer-check"],
       bounds="array<boolean>, two blocks of three items with positive counts [6 a b c 6 d e f 0], complete and cut inside the second block, all item bytes"),
-    H("dec2::array_cumulative_limit", functions=DEC_FUNCS + ["decode::decode_seq_len", "util::safe_collection_len"], fs=164,
+    H("dec2::array_cumulative_limit", functions=DEC_FUNCS + ["decode::decode_seq_len", "util::safe_collection_len"], fs=164, extra=["--no-pointer-check"],
       bounds="array<boolean>, allocation limit = 4 elements: two blocks of three (rejected) and one block of three (accepted), all boolean item values"),
-    H("dec2::array_two_negative_blocks_of_three", functions=DEC_FUNCS + ["decode::decode_seq_len", "util::safe_collection_len"], fs=164,
+    H("dec2::array_two_negative_blocks_of_three", functions=DEC_FUNCS + ["decode::decode_seq_len", "util::safe_collection_len"], fs=164, extra=["--no-pointer-check"],
       bounds="array<boolean>, two blocks of three items with negative counts and byte sizes [5 6 a b c 5 6 d e f 0], complete and cut, all item bytes"),
     H("dec2::ref_", functions=DEC_FUNCS + ["schema::Name::fully_qualified_name"], bounds="Ref -> enum{a,b,c} through a one-entry name table, and a dangling Ref; all byte strings of length <= 2"),
     H("dec::fixed_size_guard", functions=DEC_FUNCS, bounds="allocation limit 4, fixed size 0..=7, all byte strings of length <= 8"),
@@ -139,7 +141,7 @@ def _pick(lst, names, quick=()):
     for h in lst:
         if h.name in names:
             tier = h.tier if (h.name in quick and h.tier == "quick") else "thorough"
-            out.append(H(h.name, tier=tier, timeout_q=h.timeout_q, timeout_t=h.timeout_t, functions=h.functions, bounds=h.bounds, expect_fail=h.expect_fail, fs=h.fs))
+            out.append(H(h.name, tier=tier, timeout_q=h.timeout_q, timeout_t=h.timeout_t, functions=h.functions, bounds=h.bounds, expect_fail=h.expect_fail, fs=h.fs, extra=h.extra))
     return out
 
 
@@ -216,10 +218,14 @@ PROPS["C08"] = {
         H("c08::from_double", functions=C08_FUNCS, bounds="writer double (all bit patterns) read as int/long/double/bytes/string"),
         H("c08::from_bytes", functions=C08_FUNCS, bounds="writer bytes (all payloads <= 2 bytes) read as all six leaf kinds (bytes->string needs well-formed UTF-8)"),
         H("c08::from_string", functions=C08_FUNCS, bounds="writer string (<= 2 bytes) read as all six leaf kinds"),
+        H("c08::enum_by_name", functions=["apache_avro::types::Value::resolve_enum"],
+          bounds="reader enum {a,b,c} with and without default b; writer symbol a / c / z (absent) in Enum(i, s) form with every u32 writer index and in String form"),
+        H("c08::union_branch_selection", functions=C08_FUNCS + ["apache_avro::types::Value::resolve_union", "apache_avro::schema::union::UnionSchema::find_schema_with_known_schemata"],
+          bounds="reader union [null,long,string]; written Null, Long, Int (promoted), String, Union(1,Long); all i32 payloads; values with no matching branch are outside (not decided within the cap)"),
         H("c08::finding_long_to_int", functions=C08_FUNCS, bounds="writer long read as int, all i64", expect_fail=True),
         H("c08::finding_double_to_float", functions=C08_FUNCS, bounds="writer double read as float, all f64", expect_fail=True),
     ],
-    "outside": "record evolution (field matching by name/alias, defaults from JSON), enum symbol mapping and defaults, union branch selection, array/map item promotion, logical types, idempotence of resolve: only the leaf promotion matrix is decided. Strings/bytes longer than 2 bytes (so the textual NaN/INF float forms are outside).",
+    "outside": "record evolution (field matching by name/alias, defaults from JSON), the error case of union branch selection, array/map item promotion, logical types, idempotence of resolve: the leaf promotion matrix, enum symbol mapping (three-symbol reader) and union branch selection on [null,long,string] are decided. Strings/bytes longer than 2 bytes (so the textual NaN/INF float forms are outside).",
     "assumptions": ["the promotion table in the harness (spec_resolve) is transcribed from the Avro 1.11 specification, section Schema Resolution"],
 }
 
@@ -229,14 +235,22 @@ PROPS["C16"] = {
         H("c16::ser_ints", functions=C16_FUNCS, bounds="all i64 under long; all i32 / i16 / i8 under int; block-size setting None or 0..255"),
         H("c16::ser_scalars", functions=C16_FUNCS, bounds="both booleans, all f32 and f64 bit patterns"),
         H("c16::ser_mismatch_writes_nothing", functions=C16_FUNCS, bounds="i64 under schema boolean, all values"),
+        H("c16::ser_struct_in_order", functions=C16_FUNCS + ["serde::ser_schema::record::RecordSerializer::serialize_next_field", "serde::ser_schema::record::RecordSerializer::end"],
+          bounds="struct {a: i64, b: bool} under record {a: long, b: boolean}; all values; bytes == reference, count == bytes emitted"),
+        H("c16::ser_struct_out_of_order", functions=C16_FUNCS + ["serde::ser_schema::record::RecordSerializer::serialize_next_field", "serde::ser_schema::record::RecordSerializer::end"],
+          bounds="struct with serde field order b, c, a under record {a, b, c: boolean} (two fields wait in the field cache); all 8 values; bytes in schema order"),
         H("c16::de_long", functions=C16_FUNCS, bounds="all byte strings of length <= 10 under schema long"),
         H("c16::de_scalars", functions=C16_FUNCS, bounds="all byte strings of length <= 10 under boolean / int / double"),
     ],
-    "outside": "everything but scalars: strings, bytes, options, sequences and maps with block settings, structs (field reordering, defaults for skipped fields), enums, the schema-less to_value/from_value route. Agreement with the generic path is derived: both are decided equal to the same reference codec (serde side here, generic side in enc::* / dec::*).",
+    "outside": "everything but scalars: strings, bytes, options, sequences and maps with block settings, structs beyond the two listed shapes (cached fields of variable length, defaults for skipped fields, nested records, struct deserialization: not decided within the cap), enums, the schema-less to_value/from_value route. Agreement with the generic path is derived: both are decided equal to the same reference codec (serde side here, generic side in enc::* / dec::*).",
     "assumptions": ["the byte-level agreement of the two routes is derived from their equality with one reference codec, not compared in one query"],
 }
 
 C09_FUNCS = ["schema_compatibility::Checker::inner_full_match_schemas", "types::Value::resolve_internal"]
+C09_STRUCT_FUNCS = ["apache_avro::schema_compatibility::Checker::can_read", "apache_avro::schema_compatibility::Checker::full_match_schemas",
+                    "apache_avro::schema_compatibility::Checker::inner_full_match_schemas", "apache_avro::schema_compatibility::SchemaCompatibility::mutual_read",
+                    "apache_avro::types::Value::resolve_internal", "apache_avro::types::Value::resolve_enum",
+                    "apache_avro::schema::union::UnionSchema::find_schema_with_known_schemata"]
 PROPS["C09"] = {
     "harnesses": [
         H("c09::from_int", functions=C09_FUNCS, bounds="writer int vs 6 reader leaf kinds, all i32"),
@@ -245,9 +259,28 @@ PROPS["C09"] = {
         H("c09::from_double", functions=C09_FUNCS, bounds="writer double vs 6 reader leaf kinds, all bit patterns"),
         H("c09::from_bytes", functions=C09_FUNCS, bounds="writer bytes (<= 2 bytes) vs int/long/float/double/bytes"),
         H("c09::from_string", functions=C09_FUNCS, bounds="writer string (<= 2 bytes) vs 6 reader leaf kinds"),
-        H("c09::mutual_symmetric", functions=C09_FUNCS[:1], bounds="all 15 unordered pairs of the six leaf kinds"),
+        H("c09::mutual_symmetric", functions=["apache_avro::schema_compatibility::SchemaCompatibility::mutual_read", "apache_avro::schema_compatibility::Checker::full_match_schemas"] + C09_FUNCS[:1],
+          bounds="the real mutual_read(a,b) == mutual_read(b,a) for all 15 unordered pairs of the six leaf kinds"),
+        H("c09::enum_same", timeout_q=900, functions=C09_STRUCT_FUNCS, bounds="enum E{a,b} read as itself; every value of the writer schema; verdict through the memoising Checker::can_read; mutual_read in both orders"),
+        H("c09::enum_reader_symbol_added", timeout_q=900, functions=C09_STRUCT_FUNCS, bounds="E{a} read as E{a,b} (always safe); every value of the writer schema; verdict through the memoising Checker::can_read; mutual_read in both orders"),
+        H("c09::enum_reader_symbol_removed", timeout_q=900, functions=C09_STRUCT_FUNCS, bounds="E{a,b} read as E{a}; witness symbol b; every value of the writer schema; verdict through the memoising Checker::can_read; mutual_read in both orders"),
+        H("c09::enum_disjoint", timeout_q=900, functions=C09_STRUCT_FUNCS, bounds="E{a,b} read as E{c}; every value of the writer schema; verdict through the memoising Checker::can_read; mutual_read in both orders"),
+        H("c09::enum_reader_default", timeout_q=900, functions=C09_STRUCT_FUNCS, bounds="E{a,b} read as E{a} default a; every value of the writer schema; verdict through the memoising Checker::can_read; mutual_read in both orders"),
+        H("c09::enum_disjoint_reader_default", timeout_q=900, functions=C09_STRUCT_FUNCS, bounds="E{c} read as E{a} default a; every value of the writer schema; verdict through the memoising Checker::can_read; mutual_read in both orders"),
+        H("c09::union_enum_same", timeout_q=900, functions=C09_STRUCT_FUNCS, bounds="union[null,E{a,b}] read as itself; every value of the writer schema; verdict through the memoising Checker::can_read; mutual_read in both orders"),
+        H("c09::union_enum_symbol_added", timeout_q=900, functions=C09_STRUCT_FUNCS, bounds="union[null,E{a}] read as union[null,E{a,b}]; every value of the writer schema; verdict through the memoising Checker::can_read; mutual_read in both orders"),
+        H("c09::union_enum_symbol_removed", timeout_q=900, functions=C09_STRUCT_FUNCS, bounds="union[null,E{a,b}] read as union[null,E{a}]; witness Union(1,Enum b); every value of the writer schema; verdict through the memoising Checker::can_read; mutual_read in both orders"),
+        H("c09::union_branch_added", timeout_q=900, functions=C09_STRUCT_FUNCS, bounds="union[null,long] read as union[null,long,string], all i64; every value of the writer schema; verdict through the memoising Checker::can_read; mutual_read in both orders"),
+        H("c09::union_branch_removed", timeout_q=900, functions=C09_STRUCT_FUNCS, bounds="union[null,long,string] read as union[null,long]; witness the string branch; every value of the writer schema; verdict through the memoising Checker::can_read; mutual_read in both orders"),
+        H("c09::union_wrap", timeout_q=900, functions=C09_STRUCT_FUNCS, bounds="long read as union[null,long], all i64; every value of the writer schema; verdict through the memoising Checker::can_read; mutual_read in both orders"),
+        H("c09::union_unwrap", timeout_q=900, functions=C09_STRUCT_FUNCS, bounds="union[null,long] read as long; witness null; every value of the writer schema; verdict through the memoising Checker::can_read; mutual_read in both orders"),
+        H("c09::union_branch_promoted", timeout_q=900, functions=C09_STRUCT_FUNCS, bounds="union[null,int] read as union[null,long], all i32; every value of the writer schema; verdict through the memoising Checker::can_read; mutual_read in both orders"),
+        H("c09::union_wrap_promoted", timeout_q=900, functions=C09_STRUCT_FUNCS, bounds="int read as union[null,long], all i32; every value of the writer schema; verdict through the memoising Checker::can_read; mutual_read in both orders"),
         H("c09::finding_bytes_to_string", functions=C09_FUNCS, bounds="writer bytes read as string, all payloads <= 2 bytes", expect_fail=True),
     ],
-    "outside": "records, enums, unions, arrays, maps, named types, logical types, the pointer-keyed recursion memo (Checker::full_match_schemas hashes schema addresses; the harness calls the structural matcher inner_full_match_schemas directly): only the leaf-kind verdict table is decided.",
-    "assumptions": ["verdict obtained from Checker::inner_full_match_schemas (what SchemaCompatibility::can_read returns for non-recursive schemas)"],
+    "outside": "records, arrays, maps, recursive (Ref) schemas, logical types, unions beyond the listed pairs (in particular a narrowed numeric branch inside a union: its failing resolution is not decided within the cap), enums with more than two symbols: the leaf-kind verdict table plus the listed enum and union pairs are decided.",
+    "assumptions": ["leaf rows: verdict obtained from Checker::inner_full_match_schemas (what SchemaCompatibility::can_read returns for non-recursive schemas)",
+                    "enum/union pairs and mutual_symmetric go through the memoising Checker::can_read with Checker::pointer_hash (SipHash of the schema address) replaced by an injective interning of the address: 64-bit hash collisions between distinct schema addresses are outside the claim",
+                    "for a union reader the harness unwraps the written union, selects the branch with the real UnionSchema::find_schema_with_known_schemata and resolves against that branch (the three steps of Value::resolve_union) instead of calling resolve_union, whose not-found Result symex does not fold",
+                    "CompatibilityError payloads (message strings) are erased under cfg(kani) like those of Details"],
 }
